@@ -252,6 +252,9 @@ def families(tier='quick', seed=0):
     add('dotted', 'n.f[0]', {'idents': {'A': M((K('n.f[0]'), S('a')))}, 'cond': ('id', 'A')})
     add('dotted', 'f[1].g', {'idents': {'A': M((K('f[1].g'), S('*a')))}, 'cond': ('id', 'A')})
     add('dotted', 'n.f or m.f', {'idents': {'A': M((K('n.f'), S('a'))), 'B': M((K('m.f'), L(S('b'), S('c*'))))}, 'cond': ('or', ('id', 'A'), ('id', 'B'))})
+    # the same field with and without a cast: the uncast entry is missing on a number, the cast one matches
+    add('sequence', 'f|str(f)', {'idents': {'A': ('seq', [M((K('f'), S('a'))), M((K('f', 'str'), ('i', 1)))])}, 'cond': ('id', 'A')})
+    add('sequence', 'f|str(f)|g', {'idents': {'A': ('seq', [M((K('f'), S('a*'))), M((K('f', 'str'), S('1*'))), M((K('g'), S('b')))])}, 'cond': ('id', 'A')})
     add('sequence', 'or3 same field', {'idents': {'A': M((K('f'), S('ab*'))), 'B': M((K('f'), S('*c'))), 'C': M((K('f'), S('*d*')))},
                                        'cond': ('or', ('or', ('id', 'A'), ('id', 'B')), ('id', 'C'))})
     add('sequence', 'seq3 same field', {'idents': {'A': ('seq', [M((K('f'), S('abc*'))), M((K('f'), S('*c'))), M((K('f'), S('*bd*')))])}, 'cond': ('id', 'A')})
